@@ -17,15 +17,17 @@ import common, gen
 
 LEVEL = "proof"
 EXPLANATION = (
-    "Props/C17.v (23 theorems, closed): closure decides reachability; the models of nodes_reachable / nodes_reaching / "
+    "Props/C17.v (25 theorems, closed): closure decides reachability; the models of nodes_reachable / nodes_reaching / "
     "is_scc_edge / compute_edge_max_reachable_value (through the condensation, pull and push DPs) equal the declarative "
     "reachability sets / maximum, premised only on the verified checker cond_ok of networkx' condensation outputs; the stDAG "
-    "set DPs likewise (dag_topo_ok); cache machine: every answer of every query sequence equals the cold answer (for the code "
-    "as it is as long as the caller does not mutate a returned set; C17_cache_alias_refuted is the witness of the open finding); "
-    "antichain_ok decides pairwise unreachability and implies the antichain property for all walks, weighted weak duality, "
-    "certificate_opt / certificate_ok_opt; max_bottleneck DP sound and complete, greedy peeling terminates within #positive "
-    "edges rounds and explains the flow on every edge. Tie: E3/E4/E2 as described in the module docstring. Not modelled: "
-    "networkx condensation / topological_sort / network_simplex (their outputs are validated per instance or certified).")
+    "set DPs likewise (dag_topo_ok); cache machine: every answer of EVERY query sequence of the code as it is equals the cold "
+    "answer, caller-side mutation attempts included (C17_cache_coherent_full_statement; returned sets are immutable since /repo "
+    "a35dc8c; C17_cache_alias_refuted documents the old behaviour under the switch alias = true); antichain_ok decides pairwise "
+    "unreachability and implies the antichain property for all walks, weighted weak duality, certificate_opt / "
+    "certificate_ok_opt; max_bottleneck DP sound and complete (for either setting of the old-behaviour switch keyerr), greedy "
+    "peeling of the code as it is terminates within #positive edges rounds on EVERY DAG (a graph without edges gives ([], [])) "
+    "and explains the flow on every edge. Tie: E3/E4/E2 as described in the module docstring. Not modelled: networkx "
+    "condensation / topological_sort / network_simplex (their outputs are validated per instance or certified).")
 ASSUMPTIONS = [
     "networkx condensation / topological_sort outputs are taken from the implementation's objects and validated per instance by the verified checkers cond_ok / dag_topo_ok / peel_inputs_ok (a failing checker is reported)",
     "network_simplex is external: compute_max_edge_antichain is certified per sampled instance (antichain_ok + cover of equal size), not proved for all inputs",
@@ -37,11 +39,9 @@ TRUSTED = ["models: coq/theories/Reach.v, Peel.v, Cover.v; proofs ReachProofs1-4
            "the plain BFS / brute-force evaluators of the property in harness/engines/c17.py"]
 
 BIG = 2 ** 40
-K_ALIAS_SDG = "stDiGraph.reachability:returns-cached-set:caller-mutation"
-K_ALIAS_DAG = "stDAG.reachable_sets:returns-internal-sets:caller-mutation"
-K_NOEDGE = "max_bottleneck_path:KeyError:no-edges"
-K_BIGNUM = "compute_max_edge_antichain:bigNumber:optimum>=2^32"
-K_EMPTYWF = "compute_max_edge_antichain:empty-weight-dict-treated-as-None"
+# The five findings of the first round (mutable cache objects handed out by stDiGraph / stDAG, KeyError on a graph without
+# edges, optimum >= 2^32, empty weight dict) are fixed in /repo (a35dc8c, 6d36e70, f6bbb4a, 5b604ee): they are ordinary
+# cases now and a regression of any of them is a plain VIOLATION.
 
 
 # ----------------------------------------------------------------------------- plain graph search
@@ -310,10 +310,15 @@ def run_histories(ctx, n, mutate):
                 fwd, v = rng.choice(sorted(hot)); x = rng.choice(names); add = rng.random() < 0.6
                 s = o["held"][(fwd, v)]
                 try:
-                    (s.add if add else s.discard)(x)       # the caller's own object -- or is it?
+                    (s.add if add else s.discard)(x)       # must be impossible: the object handed out is immutable
+                    did = "U"; o["mutated"] = True
                 except (AttributeError, TypeError):
-                    ctx.count("E4_histories", "returned_set_immutable")
-                o["qs"].append([3, int(fwd), int(add), ids[v], ids[x]]); o["impl"].append("U"); o["cold"].append("U"); o["mutated"] = True
+                    did = "R"; ctx.count("E4_histories", "mutation_refused")
+                o["qs"].append([3, int(fwd), int(add), ids[v], ids[x]]); o["impl"].append(did); o["cold"].append("R")
+                # ... and the very next answer for that node must still be the cold one
+                got = sorted(st.nodes_reachable(v) if fwd else st.nodes_reaching(v))
+                adj = adjacency(list(st.edges()))[0 if fwd else 1]
+                o["qs"].append([0 if fwd else 1, ids[v]]); o["impl"].append(got); o["cold"].append(sorted(bfs(adj, v)))
             elif r < 0.55 or (r < 0.7 and hot):
                 v = rng.choice(sorted(v for _, v in hot)) if (hot and rng.random() < 0.5) else rng.choice(names + ["absent"])
                 fwd = rng.random() < 0.5
@@ -354,7 +359,7 @@ def run_histories(ctx, n, mutate):
                 continue
             st = o["st"]; ids = o["ids"]
             V, E, m, ce, topo = sdg_inputs(st, ids)
-            for alias in (1, 0):
+            for alias in (0,):                                     # code_alias = false: the code as it is
                 reqs.append("sdgq " + common.toks(tok_graph(V, E, m, ce, topo), alias, len(o["qs"]), o["qs"]))
                 meta.append((i, o, alias))
     outs = ctx.model.run(reqs)
@@ -364,7 +369,7 @@ def run_histories(ctx, n, mutate):
     for r in res.values():
         o = r["o"]; names = o["names"]; i = r["i"]
         replay = {"kind": stream, "edges": [list(e) for e in o["G"].edges()], "nodes": list(o["G"].nodes()),
-                  "ops": o["qs"], "impl": o["impl"], "cold": o["cold"], "model_alias": r.get(1), "model_copy": r.get(0)}
+                  "ops": o["qs"], "impl": o["impl"], "cold": o["cold"], "model": r.get(0)}
         ctx.case([stream, sorted([o["ids"][u], o["ids"][v]] for u, v in o["st"].edges()), o["qs"]],
                  nontrivial=len(o["qs"]) >= 3,
                  sample={"kind": stream, "ops": o["qs"][:6], "answers": [str(a)[:40] for a in o["impl"][:6]]})
@@ -382,28 +387,27 @@ def run_histories(ctx, n, mutate):
                 if tok.startswith("N:"): res_.append(parse_nodes(tok, names))
                 elif tok.startswith("B:"): res_.append(tok == "B:1")
                 elif tok == "E": res_.append("ValueError")
-                else: res_.append("U")
+                else: res_.append(tok)                                  # "R" refused / "U" mutated
             return res_
-        m_alias = parse(r.get(1)); m_copy = parse(r.get(0))
-        if m_alias is None or m_copy is None:
+        m = parse(r.get(0))
+        if m is None:
             ctx.report("model error / cond_ok rejected in a history case", replay, concrete=False); continue
-        if m_copy != o["cold"]:
-            ctx.report("the copy-semantics model disagrees with the plain graph search (model/harness mismatch)", replay, concrete=False); continue
-        if o["impl"] == o["cold"]:
-            ctx.count("E4_histories", "all_answers_cold")
-            if o["impl"] == m_alias:
-                ctx.count("E4_histories", "agree_with_faithful_model")
-            else:
-                ctx.count("E4_histories", "copy_semantics_observed")        # the aliasing was repaired: answers stay cold
-            continue
-        # some answer differs from the cold answer: the property fails on this sequence
-        k = next(j for j, (a, c) in enumerate(zip(o["impl"], o["cold"])) if a != c)
-        what = (f"query #{k} {o['qs'][k]} answered {o['impl'][k]} but the cold answer / graph search is {o['cold'][k]} "
-                f"(sequence of {len(o['qs'])} operations on one stDiGraph object)")
-        if o["mutated"] and o["impl"] == m_alias:
-            ctx.report("a reachability answer changed after the caller mutated a set returned earlier: " + what, replay, key=K_ALIAS_SDG, concrete=True)
-        else:
+        if m != o["cold"]:
+            ctx.report("the cache-machine model (code_alias) disagrees with the plain graph search (model/harness mismatch)", replay, concrete=False); continue
+        isq = [q[0] != 3 for q in o["qs"]]
+        wrong = [j for j, (a, c) in enumerate(zip(o["impl"], o["cold"])) if isq[j] and a != c]
+        if wrong:
+            k = wrong[0]
+            what = (f"query #{k} {o['qs'][k]} answered {o['impl'][k]} but the cold answer / graph search is {o['cold'][k]} "
+                    f"(sequence of {len(o['qs'])} operations on one stDiGraph object"
+                    + ("; the caller had mutated a set returned earlier)" if o["mutated"] else ")"))
             ctx.report("query history: an answer differs from the cold answer: " + what, replay, concrete=True)
+        elif o["impl"] != o["cold"]:
+            ctx.count("E4_histories", "disagreements")
+            ctx.report("E4 correspondence broken: the caller could mutate a set returned by nodes_reachable / nodes_reaching (the model refuses); "
+                       "no later answer changed in this sequence", replay, concrete=False)
+        else:
+            ctx.count("E4_histories", "agreements")
 
 
 def run_dag_histories(ctx, n):
@@ -430,18 +434,25 @@ def run_dag_histories(ctx, n):
             if mutate and rng.random() < 0.4:
                 x = rng.choice(names) if k < 2 else rng.choice(edges)
                 try:
-                    (s.add if rng.random() < 0.6 else s.discard)(x); touched = True
+                    if rng.random() < 0.25:
+                        getattr(st, props[k])[v] = set()               # the dict itself
+                    else:
+                        (s.add if rng.random() < 0.6 else s.discard)(x)
+                    touched = True
                 except (AttributeError, TypeError):
-                    ctx.count("E4_histories", "returned_set_immutable")
-                ops.append(["caller mutates the returned set", str(x)])
+                    ctx.count("E4_histories", "stDAG_mutation_refused")
+                ops.append(["caller tries to mutate the returned set / dict", str(x)])
+                got = sorted(getattr(st, props[k])[v])                 # the next answer must still be the cold one
+                if got != cold(k, v) and bad is None:
+                    bad = f"{props[k]}[{v}] = {got} after the caller mutated the returned object, cold answer / graph search {cold(k, v)}"
         ctx.case(["daghist", sorted(map(list, G.edges())), ops], nontrivial=len(ops) >= 4, sample=None)
         ctx.count("E4_histories", "stDAG_sequences")
         replay = {"kind": "daghist", "edges": [list(e) for e in G.edges()], "ops": ops}
         if bad:
-            if touched:
-                ctx.report("a stDAG reachability answer changed after the caller mutated a returned set: " + bad, replay, key=K_ALIAS_DAG, concrete=True)
-            else:
-                ctx.report("stDAG reachability answer differs from the cold answer: " + bad, replay, concrete=True)
+            ctx.report("stDAG reachability answer differs from the cold answer: " + bad, replay, concrete=True)
+        elif touched:
+            ctx.report("the caller could mutate a set / the dict returned by a stDAG reachability property (no later answer changed in this sequence)",
+                       replay, concrete=False)
 
 
 # ----------------------------------------------------------------------------- E3 bottleneck path and peeling
@@ -502,7 +513,8 @@ def run_bottleneck(ctx, n):
         # ---- property on the implementation's output
         if G.number_of_edges() == 0:
             if got != (None, None):
-                ctx.report(f"max_bottleneck_path on a graph without edges: {got} instead of (None, None)", replay, key=K_NOEDGE, concrete=True)
+                ctx.report(f"max_bottleneck_path on a graph without edges: {got} instead of (None, None)", replay, concrete=True); continue
+            ctx.count("E2_property_on_impl_output", "max_bottleneck_path")
         else:
             best = best_bottleneck(G)
             ok = True
@@ -526,9 +538,7 @@ def run_bottleneck(ctx, n):
         elif body == "NOPATH": mod = (None, None)
         else:
             t = body.split(); mod = (int(t[1]), [names[int(x)] for x in t[2:]])
-        if mod == "KeyError" and got == (None, None) and G.number_of_edges() == 0:
-            ctx.count("E3_max_bottleneck_path", "no_edges_specified_answer")    # the open finding was repaired; model keeps the old behaviour
-        elif mod == got:
+        if mod == got:
             ctx.count("E3_max_bottleneck_path", "agreements")
         else:
             ctx.count("E3_max_bottleneck_path", "disagreements")
@@ -598,7 +608,8 @@ def run_peeling(ctx, n):
             ctx.report(f"greedy peeling does not terminate within #positive edges ({npos}) + 1 rounds on a non-negative flow", replay, concrete=True); continue
         if not before:
             if got != ([], []):
-                ctx.report(f"decompose_using_max_bottleneck on a DAG without edges: {got} instead of ([], [])", replay, key=K_NOEDGE, concrete=True)
+                ctx.report(f"decompose_using_max_bottleneck on a DAG without edges: {got} instead of ([], [])", replay, concrete=True); continue
+            ctx.count("E2_property_on_impl_output", "peeling")
         elif conserving:
             ok = not isinstance(got, str)
             if ok:
@@ -623,9 +634,7 @@ def run_peeling(ctx, n):
         if before and not head.strip().endswith("1") and not out.startswith("KEYERROR"):
             ctx.report("peel_inputs_ok rejects the structure of temp_G read off networkx", replay, concrete=False); continue
         norm = lambda r: r if isinstance(r, str) else (list(map(list, r[0])), list(r[1]))
-        if mod == "KeyError" and not before and norm(got) == ([], []):
-            ctx.count("E3_peeling", "no_edges_specified_answer")
-        elif norm(mod) == norm(got):
+        if norm(mod) == norm(got):
             ctx.count("E3_peeling", "agreements")
         else:
             ctx.count("E3_peeling", "disagreements")
@@ -772,11 +781,7 @@ def run_antichain(ctx, n):
         ctx.dist("antichain:" + mode)
         ctx.count("E2_antichain", "cases")
         if err is not None or cost is None or cost2 is None:
-            if opt >= 2 ** 32:
-                ctx.report(f"compute_max_edge_antichain fails when the optimum ({opt}) reaches graphutils.bigNumber = 2^32: {err or 'returned None'}",
-                           replay, key=K_BIGNUM, concrete=True)
-            else:
-                ctx.report(f"compute_max_edge_antichain / get_width failed: {err or 'returned None'} (true maximum {opt})", replay, concrete=True)
+            ctx.report(f"compute_max_edge_antichain / get_width failed: {err or 'returned None'} (true maximum {opt})", replay, concrete=True)
             continue
         t = out.split()
         if t[0] != "OK":
@@ -789,7 +794,7 @@ def run_antichain(ctx, n):
             elif aw != cost: bad = f"the returned antichain has weight {aw}, reported optimum {cost}"
         if emptywf[0] and cost == cost2 == emptywf[1] and cost != opt:
             ctx.report(f"an empty weight dict (all edges ignored / all weights missing) is treated like weight_function=None: reported {cost}, "
-                       f"the maximum for the all-zero weights is {opt}", replay, key=K_EMPTYWF, concrete=True)
+                       f"the maximum for the all-zero weights is {opt}", replay, concrete=True)
             continue
         if bad is None and cost != cost2: bad = f"get_antichain=True reports {cost}, get_antichain=False / repeated call reports {cost2}"
         if bad is None and cost != opt: bad = f"reported optimum {cost}, exhaustive maximum over all antichains {opt}"
